@@ -394,7 +394,7 @@ PROPS["C13"] = dict(
         dict(module="MC_Builder", cfg="MC_Builder_thorough.cfg", tiers=("thorough",), workers=14, timeout=3400, heap="24g"),
     ],
     trace="Trace_C13",
-    drive=dict(quick=dict(n=400, size=3), thorough=dict(n=8000, size=8)),
+    drive=dict(quick=dict(n=1200, size=3), thorough=dict(n=8000, size=8)),
     nontrivial=lambda e: e["op"] not in ("set_file", "set_debug_id"),
     corrupt=_corrupt_c13,
     corruptible=lambda e: e["op"] in ("add_source", "add_name", "add", "add_raw") or bool(e["out"].get("obs")),
@@ -510,7 +510,7 @@ PROPS["C08"] = dict(
         dict(module="MC_IndexMap", cfg="MC_IndexMap_thorough.cfg", tiers=("thorough",), workers=14, timeout=3400, heap="24g"),
     ],
     trace="Trace_C08",
-    drive=dict(quick=dict(n=400, size=3), thorough=dict(n=8000, size=6)),
+    drive=dict(quick=dict(n=1200, size=3), thorough=dict(n=8000, size=6)),
     nontrivial=lambda e: e["out"].get("k") == "ok" and len(e["args"]["p"].get("sections", [])) >= 1,
     corrupt=_corrupt_c08,
     rule="cases: every well-formed index of MC_IndexMap (<= MaxSecs sections at offsets from {(0,0),(0,4),(1,2),(2,0)}, section maps: empty / one token / two lines with a name, shared source names, partial contents and an ignore list / sourceless + range token; unresolved sections; one nested index in thorough) x 40 grid queries; seeded: up to 12 sections (30 tokens each), mid-line starts, Hermes sections, nested indexes to depth 2, 40 random queries; distinct = distinct (index projection, queries); non-trivial = at least one section",
